@@ -3,6 +3,7 @@ package rules
 import (
 	"go/token"
 	"sort"
+	"strings"
 
 	"golang.org/x/tools/go/ssa"
 
@@ -18,10 +19,10 @@ const txtarFile = "golang.org/x/tools/txtar"
 
 func runC14(ctx *core.Ctx) {
 	ctx.Trusted = append(ctx.Trusted, "go/types, go/ssa", "library-fact table of the bounds engine", "bytes.Replace, bytes.TrimPrefix, utf8.Valid, append are total")
-	ctx.Rule("Q1", "one marker predicate: the parser (Parse) and NeedsQuote both call the same marker-search function; the result component on which Parse's loop decides 'a marker was found' is the only component NeedsQuote's verdict may depend on", 1)
 	ctx.Rule("Q2", "Quote/Unquote refuse rather than guess: every nil-error return with non-nil data is dominated by the shape checks (Quote: last byte is newline, utf8.Valid; Unquote: first byte '>' and last byte newline)", 2)
 	ctx.Rule("Q3", "totality of NeedsQuote, Quote, Unquote (bounds engine over all reachable module functions)", 8)
-	ctx.Rule("Q5", "normalisation agreement: Format terminates every body with a newline; NeedsQuote applies the marker search to the body normalised by the same final-newline fix the parser uses, so a last line that is a marker only once terminated is detected", 1)
+	ctx.Rule("Q6", "Quote prefixes every line: inside the loop over the input the '>' append is the true-successor of the test 'previous byte == newline' (the previous byte starting as a newline) with no further condition, that test is passed on every iteration, and every iteration copies its byte; any extra condition leaves some line without the prefix that Unquote removes from every line", 1)
+	ctx.Rule("Q7", "Unquote removes one prefix per line: no cut-set trimming (Trim/TrimLeft/TrimRight with '>' in the set) and no Replace with a non-negative count on the data; a line that began with '>' before quoting begins with '>>' after it, and only the first may go", 1)
 	ctx.Rule("Q4", "caller protocol: in txtar-c and testscript's script updater every value stored as a txtar file body is either the result of a successful Quote or a value for which NeedsQuote was consulted and returned false", 2)
 
 	parse := ctx.Need("Q1", "txtar", "Parse")
@@ -33,125 +34,111 @@ func runC14(ctx *core.Ctx) {
 	}
 	p := ctx.P
 
-	// ---- Q1
-	// the search function: static callee common to Parse and NeedsQuote returning a tuple
-	calleesOf := func(f *ssa.Function) map[*ssa.Function][]*ssa.Call {
-		m := map[*ssa.Function][]*ssa.Call{}
-		graph(p, f).Instrs(func(i ssa.Instruction) {
-			if c, ok := i.(*ssa.Call); ok {
-				if cal := c.Call.StaticCallee(); cal != nil && core.InModule(cal) && cal.Signature.Results().Len() > 1 {
-					m[cal] = append(m[cal], c)
+	needsQuoteExact(ctx, "Q1", "Q5")
+
+	// ---- Q6: Quote prefixes every line and copies every byte
+	{
+		g := graph(p, quote)
+		data := quote.Params[0]
+		isByteAppend := func(c *ssa.Call, elem func(ssa.Value) bool) bool {
+			if !isBuiltinCall(c, "append") || len(c.Call.Args) != 2 {
+				return false
+			}
+			el := variadicElems(c.Call.Args[1])
+			return len(el) == 1 && elem(el[0])
+		}
+		isPrev := func(v ssa.Value) bool {
+			ph, ok := v.(*ssa.Phi)
+			if !ok {
+				return false
+			}
+			nl, loads := 0, 0
+			for _, e := range ph.Edges {
+				if k, isK := ssax.ConstInt(e); isK && k == '\n' {
+					nl++
+				} else if isElemLoad(data, nil)(e) {
+					loads++
+				} else {
+					return false
 				}
 			}
-		})
-		return m
-	}
-	pc, nc := calleesOf(parse), calleesOf(nq)
-	var search *ssa.Function
-	for f := range pc {
-		if _, ok := nc[f]; ok {
-			search = f
+			return nl == 1 && loads >= 1
 		}
-	}
-	if search == nil {
-		ctx.Unknown("Q1", "txtar.NeedsQuote", nq.Pos(), "Parse and NeedsQuote share no marker-search function: the sibling rule cannot be instantiated")
-	} else {
-		// discriminator: which Extract index of search's result decides Parse's loop
-		disc := map[int]bool{}
-		gp := graph(p, parse)
-		gp.Instrs(func(i ssa.Instruction) {
-			ifi, ok := i.(*ssa.If)
+		var gt, cp []*ssa.Call
+		g.Instrs(func(i ssa.Instruction) {
+			c, ok := i.(*ssa.Call)
 			if !ok {
 				return
 			}
-			for idx := 0; idx < search.Signature.Results().Len(); idx++ {
-				idx := idx
-				if ssax.DerivedFrom(ifi.Cond, func(v ssa.Value) bool {
-					e, ok := v.(*ssa.Extract)
-					if !ok || e.Index != idx {
-						return false
-					}
-					c, ok := e.Tuple.(*ssa.Call)
-					return ok && c.Call.StaticCallee() == search
-				}, nil) {
-					disc[idx] = true
-				}
+			if isByteAppend(c, isConstIntV('>')) {
+				gt = append(gt, c)
+			}
+			if isByteAppend(c, isElemLoad(data, nil)) {
+				cp = append(cp, c)
 			}
 		})
-		used := map[int]bool{}
-		constReturn := false
-		for _, r := range graph(p, nq).Returns() {
-			if _, isConst := ssax.ConstBool(ssax.ReturnValues(r)[0]); isConst {
-				constReturn = true
-				ctx.Bad("Q1", "txtar.NeedsQuote#constant-verdict", r.Pos(), "NeedsQuote returns a constant on this path without consulting the marker search: its verdict is exact only if every path decides by the search the parser uses (a shortcut test such as 'contains \" --\\n\"' misses CRLF-terminated and unterminated final marker lines)")
-			}
-			for idx := 0; idx < search.Signature.Results().Len(); idx++ {
-				idx := idx
-				if ssax.DerivedFrom(r.Results[0], func(v ssa.Value) bool {
-					e, ok := v.(*ssa.Extract)
-					if !ok || e.Index != idx {
-						return false
+		if len(gt) != 1 || len(cp) != 1 {
+			ctx.Unknown("Q6", "txtar.Quote#loop", quote.Pos(), "expected one append of '>' and one append of the current byte in Quote's loop, found %d and %d: shape not recognised", len(gt), len(cp))
+		} else {
+			blk := gt[0].Block().Index
+			l, inLoop := innermostLoop(g, blk)
+			why := ""
+			switch {
+			case !inLoop:
+				why = "the '>' append is not in a loop"
+			case len(g.Preds[blk]) != 1:
+				why = "the '>' append is reached from several places"
+			default:
+				pb := g.Preds[blk][0]
+				ef := g.EdgeFacts(pb, blk)
+				own := ef[len(ef)-1:]
+				if len(ef) == len(g.FactsAt(pb)) {
+					own = nil
+				}
+				if !cmpFact(own, token.EQL, isPrev, isConstIntV('\n')) {
+					why = "the '>' append is not decided by 'previous byte == newline' alone (previous byte starting as a newline): some line starts get no prefix, and Unquote cannot restore them"
+				}
+				for _, latch := range g.Preds[l.Header] {
+					if !l.Blocks[latch] {
+						continue
 					}
-					c, ok := e.Tuple.(*ssa.Call)
-					return ok && c.Call.StaticCallee() == search
-				}, nil) {
-					used[idx] = true
+					if !g.DomBlock(pb, latch) {
+						why = "an iteration can skip the line-start test"
+					}
+					if !g.DomBlock(cp[0].Block().Index, latch) {
+						why = "an iteration can skip copying its byte"
+					}
 				}
 			}
-		}
-		// the search's own discriminator (constant-empty on its no-marker return, known non-empty on a hit)
-		sd, _, _ := discriminator(p, search)
-		for k := range disc {
-			if !sd[k] {
-				delete(disc, k)
-			}
-		}
-		if len(disc) == 0 {
-			disc = sd
-		}
-		_ = constReturn
-		same := len(disc) > 0 && len(used) > 0
-		for k := range used {
-			if !disc[k] {
-				same = false
-			}
-		}
-		names := func(m map[int]bool) []string {
-			var out []string
-			for k := range m {
-				out = append(out, search.Signature.Results().At(k).Name()+"#"+itoa(k))
-			}
-			sort.Strings(out)
-			return out
-		}
-		if same {
-			ctx.OK("Q1", "txtar.NeedsQuote", nq.Pos(), "NeedsQuote decides on %v of %s, the component Parse's loop tests (%v)", names(used), shortFn(search), names(disc))
-		} else {
-			ctx.Bad("Q1", "txtar.NeedsQuote", nq.Pos(), "NeedsQuote decides on result component %v of %s but Parse recognises a marker by component %v: the two disagree whenever those components disagree (e.g. a marker on a final line without newline)", names(used), shortFn(search), names(disc))
+			ctx.Check(why == "", "Q6", "txtar.Quote#every-line-prefixed", gt[0].Pos(), "inside Quote's loop every line start gets exactly the '>' prefix and every byte is copied %s", why)
 		}
 	}
-
-	// ---- Q5: NeedsQuote must decide on the body as Format will write it
-	if search != nil {
-		var norm *ssa.Function
-		graph(p, search).Instrs(func(i ssa.Instruction) {
-			if c, ok := i.(*ssa.Call); ok {
-				if cal := c.Call.StaticCallee(); cal != nil && core.InModule(cal) && cal.Signature.Params().Len() == 1 && cal.Signature.Results().Len() == 1 &&
-					cal.Signature.Params().At(0).Type().String() == "[]byte" && cal.Signature.Results().At(0).Type().String() == "[]byte" {
-					norm = cal
+	// ---- Q7: Unquote removes one prefix per line, never a run of them
+	{
+		g := graph(p, unquote)
+		bad := ""
+		n := 0
+		g.Instrs(func(i ssa.Instruction) {
+			c, ok := i.(*ssa.Call)
+			if !ok {
+				return
+			}
+			name := ssax.CalleeName(&c.Call)
+			switch name {
+			case "bytes.TrimLeft", "bytes.Trim", "bytes.TrimRight", "strings.TrimLeft", "strings.Trim", "strings.TrimRight":
+				if cut, ok := ssax.ConstString(c.Call.Args[1]); ok && strings.Contains(cut, ">") {
+					bad = name + " strips a run of '>' where Quote added exactly one"
+				}
+			case "bytes.TrimPrefix", "strings.TrimPrefix", "bytes.Replace", "bytes.ReplaceAll", "strings.Replace", "strings.ReplaceAll", "bytes.CutPrefix":
+				n++
+			}
+			if (name == "bytes.Replace" || name == "strings.Replace") && len(c.Call.Args) == 4 {
+				if k, ok := ssax.ConstInt(c.Call.Args[3]); ok && k >= 0 {
+					bad = name + " with a non-negative count leaves later lines quoted"
 				}
 			}
 		})
-		if norm == nil {
-			ctx.Unknown("Q5", "txtar.NeedsQuote#normalised", nq.Pos(), "final-newline normaliser of the marker search not found")
-		} else {
-			for _, c := range nc[search] {
-				arg := c.Call.Args[0]
-				ac, ok := arg.(*ssa.Call)
-				okNorm := ok && ac.Call.StaticCallee() == norm && ac.Call.Args[0] == ssa.Value(nq.Params[0])
-				ctx.Check(okNorm, "Q5", "txtar.NeedsQuote#normalised", c.Pos(), "NeedsQuote searches %s(data), the body with the final newline Format will add: a last line that becomes a marker only once terminated (e.g. \"-- x --\\r\" -> \"-- x --\\r\\n\") must count", shortFn(norm))
-			}
-		}
+		ctx.Check(bad == "", "Q7", "txtar.Unquote#one-prefix-per-line", unquote.Pos(), "Unquote never strips a run of '>' bytes and never limits the number of lines it unquotes %s", bad)
 	}
 
 	// ---- Q2
@@ -299,4 +286,138 @@ func quoteProtocol(ctx *core.Ctx, rule string, pkgs []string) {
 			})
 		}
 	}
+}
+
+// needsQuoteExact implements the NeedsQuote rules (C14.Q1 and Q5); C16 re-uses
+// them because its quoting clause holds only if NeedsQuote is exact.
+func needsQuoteExact(ctx *core.Ctx, q1, q5 string) {
+	ctx.Rule(q1, "one marker predicate: the parser (Parse) and NeedsQuote both call the same marker-search function; the result component on which Parse's loop decides 'a marker was found' is the only component NeedsQuote's verdict may depend on", 1)
+	ctx.Rule(q5, "normalisation agreement: Format terminates every body with a newline; NeedsQuote applies the marker search to the body normalised by the same final-newline fix the parser uses, so a last line that is a marker only once terminated is detected", 1)
+	p := ctx.P
+	parse := ctx.Need(q1, "txtar", "Parse")
+	nq := ctx.Need(q1, "txtar", "NeedsQuote")
+	if parse == nil || nq == nil {
+		return
+	}
+	// ---- Q1
+	// the search function: static callee common to Parse and NeedsQuote returning a tuple
+	calleesOf := func(f *ssa.Function) map[*ssa.Function][]*ssa.Call {
+		m := map[*ssa.Function][]*ssa.Call{}
+		graph(p, f).Instrs(func(i ssa.Instruction) {
+			if c, ok := i.(*ssa.Call); ok {
+				if cal := c.Call.StaticCallee(); cal != nil && core.InModule(cal) && cal.Signature.Results().Len() > 1 {
+					m[cal] = append(m[cal], c)
+				}
+			}
+		})
+		return m
+	}
+	pc, nc := calleesOf(parse), calleesOf(nq)
+	var search *ssa.Function
+	for f := range pc {
+		if _, ok := nc[f]; ok {
+			search = f
+		}
+	}
+	if search == nil {
+		ctx.Unknown(q1, "txtar.NeedsQuote", nq.Pos(), "Parse and NeedsQuote share no marker-search function: the sibling rule cannot be instantiated")
+	} else {
+		// discriminator: which Extract index of search's result decides Parse's loop
+		disc := map[int]bool{}
+		gp := graph(p, parse)
+		gp.Instrs(func(i ssa.Instruction) {
+			ifi, ok := i.(*ssa.If)
+			if !ok {
+				return
+			}
+			for idx := 0; idx < search.Signature.Results().Len(); idx++ {
+				idx := idx
+				if ssax.DerivedFrom(ifi.Cond, func(v ssa.Value) bool {
+					e, ok := v.(*ssa.Extract)
+					if !ok || e.Index != idx {
+						return false
+					}
+					c, ok := e.Tuple.(*ssa.Call)
+					return ok && c.Call.StaticCallee() == search
+				}, nil) {
+					disc[idx] = true
+				}
+			}
+		})
+		used := map[int]bool{}
+		constReturn := false
+		for _, r := range graph(p, nq).Returns() {
+			if _, isConst := ssax.ConstBool(ssax.ReturnValues(r)[0]); isConst {
+				constReturn = true
+				ctx.Bad(q1, "txtar.NeedsQuote#constant-verdict", r.Pos(), "NeedsQuote returns a constant on this path without consulting the marker search: its verdict is exact only if every path decides by the search the parser uses (a shortcut test such as 'contains \" --\\n\"' misses CRLF-terminated and unterminated final marker lines)")
+			}
+			for idx := 0; idx < search.Signature.Results().Len(); idx++ {
+				idx := idx
+				if ssax.DerivedFrom(r.Results[0], func(v ssa.Value) bool {
+					e, ok := v.(*ssa.Extract)
+					if !ok || e.Index != idx {
+						return false
+					}
+					c, ok := e.Tuple.(*ssa.Call)
+					return ok && c.Call.StaticCallee() == search
+				}, nil) {
+					used[idx] = true
+				}
+			}
+		}
+		// the search's own discriminator (constant-empty on its no-marker return, known non-empty on a hit)
+		sd, _, _ := discriminator(p, search)
+		for k := range disc {
+			if !sd[k] {
+				delete(disc, k)
+			}
+		}
+		if len(disc) == 0 {
+			disc = sd
+		}
+		_ = constReturn
+		same := len(disc) > 0 && len(used) > 0
+		for k := range used {
+			if !disc[k] {
+				same = false
+			}
+		}
+		names := func(m map[int]bool) []string {
+			var out []string
+			for k := range m {
+				out = append(out, search.Signature.Results().At(k).Name()+"#"+itoa(k))
+			}
+			sort.Strings(out)
+			return out
+		}
+		if same {
+			ctx.OK(q1, "txtar.NeedsQuote", nq.Pos(), "NeedsQuote decides on %v of %s, the component Parse's loop tests (%v)", names(used), shortFn(search), names(disc))
+		} else {
+			ctx.Bad(q1, "txtar.NeedsQuote", nq.Pos(), "NeedsQuote decides on result component %v of %s but Parse recognises a marker by component %v: the two disagree whenever those components disagree (e.g. a marker on a final line without newline)", names(used), shortFn(search), names(disc))
+		}
+	}
+
+	// ---- Q5: NeedsQuote must decide on the body as Format will write it
+	if search != nil {
+		var norm *ssa.Function
+		graph(p, search).Instrs(func(i ssa.Instruction) {
+			if c, ok := i.(*ssa.Call); ok {
+				if cal := c.Call.StaticCallee(); cal != nil && core.InModule(cal) && cal.Signature.Params().Len() == 1 && cal.Signature.Results().Len() == 1 &&
+					cal.Signature.Params().At(0).Type().String() == "[]byte" && cal.Signature.Results().At(0).Type().String() == "[]byte" {
+					norm = cal
+				}
+			}
+		})
+		if norm == nil {
+			ctx.Unknown(q5, "txtar.NeedsQuote#normalised", nq.Pos(), "final-newline normaliser of the marker search not found")
+		} else {
+			for _, c := range nc[search] {
+				arg := c.Call.Args[0]
+				ac, ok := arg.(*ssa.Call)
+				okNorm := ok && ac.Call.StaticCallee() == norm && ac.Call.Args[0] == ssa.Value(nq.Params[0])
+				ctx.Check(okNorm, q5, "txtar.NeedsQuote#normalised", c.Pos(), "NeedsQuote searches %s(data), the body with the final newline Format will add: a last line that becomes a marker only once terminated (e.g. \"-- x --\\r\" -> \"-- x --\\r\\n\") must count", shortFn(norm))
+			}
+		}
+	}
+
 }
